@@ -91,7 +91,7 @@ let handle_lnode line =
            let b k = g k <> "0" in
            let view = { nv_dist = b "dist"; nv_dcl = b "dcl"; nv_init = b "init"; nv_knl = b "knl" && b "knlquirk"; nv_fake = b "fake"; nv_msc = b "msc";
                         nv_overlap = (if g "overlap" = "-" then None else Some (z_of_int (int_of_string (g "overlap"))));
-                        nv_nvidia = b "nvidia"; nv_keep = b "keep"; nv_gpus = Stdlib.List.rev !ln_gpus; nv_online = !ln_online; nv_dir = !ln_dir;
+                        nv_nvidia = b "nvidia"; nv_keep = b "keep"; nv_pus = (match bset_of_text (g "pus") with Some x -> x | None -> { fin = N0; inf = false }); nv_gpus = Stdlib.List.rev !ln_gpus; nv_online = !ln_online; nv_dir = !ln_dir;
                         nv_nodes = Stdlib.List.rev_map (fun nb -> { nf_os = n_of_int nb.os; nf_cpumap = nb.cpumap; nf_distance = nb.distance;
                                                                     nf_msc = nb.msc; nf_acc1 = nb.a1; nf_acc0 = nb.a0 }) !ln_nodes } in
            ln_view := Some (view, b "rootnodes")
